@@ -1,2 +1,2 @@
 def indicesOffsetBackend (s : Int) : Int :=
-  (Py.ceil (((s : Int) : Rat) / (2 : Rat)))
+  (s / (2 : Int))
